@@ -150,7 +150,8 @@ def runC16 (fields : List String) (obs : String) : String × String × String :=
   | ["fn", arity, kind, arms, how, args] =>
     (match arity.toNat?, (arms.splitOn ";;").mapM pFArm, (if args.isEmpty then some [] else (args.splitOn ",").mapM pS) with
      | some ar, some arms, some args =>
-       let f : FDef := ⟨ar, arms⟩
+       -- the declared inputs are called a, b (harness/src/c16.rs)
+       let f : FDef := ⟨ar, arms, (["a", "b"].take ar).map nameCode⟩
        if how == "call" then
          let model := match callImpl f IT DEPTH args with | .ok s => sText s | .error _ => "err"
          let exp := match callRec f (3 * DEPTH) args with | .ok s => sText s | .error _ => "err"
